@@ -79,6 +79,9 @@ pub enum Ev {
     /// a client that submitted with wait has seen the completion of its job and closes its
     /// connection (what `hq submit --wait` does); the server then unregisters its listener
     ClientClose(u8),
+    /// an autoalloc tick asks the scheduler which new workers it could use
+    /// (`ServerRef::new_worker_query` with one 1-cpu worker type); does not change the state
+    WorkerQuery,
 }
 
 impl Ev {
@@ -1320,6 +1323,7 @@ impl System {
             Ev::FlushDone => "flush-done".into(),
             Ev::Disconnect(_) => "worker-stopped".into(),
             Ev::ClientClose(_) => "client-close".into(),
+            Ev::WorkerQuery => "worker-query".into(),
         }
     }
 
@@ -1402,6 +1406,9 @@ impl System {
         }
         if !self.pending_ops.is_empty() {
             evs.push(Ev::FlushDone);
+        }
+        if self.sc.worker_query {
+            evs.push(Ev::WorkerQuery);
         }
         evs
     }
@@ -1572,6 +1579,20 @@ impl System {
                     let conn = &mut self.clients[c as usize];
                     conn.closed = true;
                     conn.tx = None;
+                }
+                Ev::WorkerQuery => {
+                    let query = tako::control::WorkerTypeQuery {
+                        partial: false,
+                        descriptor: tako::resources::ResourceDescriptor::simple_cpus(1),
+                        time_limit: None,
+                        max_sn_workers: 1,
+                        max_workers_per_allocation: 2,
+                        min_utilization: 0.0,
+                    };
+                    let r = self.server_ref.new_worker_query(&[query]);
+                    if std::env::var("HQMC_LOUD").is_ok() {
+                        eprintln!("worker query -> {r:?}");
+                    }
                 }
                 Ev::FlushDone => {
                     let op = self.pending_ops.pop_front().expect("pending op");
